@@ -111,6 +111,8 @@ func registerStubs(e *Engine) {
 		id := e.strID(sv)
 		ok := e.uf("PD_ok", []*Term{id}, BoolSort)
 		val := e.uf("PD_val", []*Term{id}, BV(64))
+		// the real parser reads unsigned digits: a parsed duration is never negative
+		e.axiom("PDnonneg|"+val.String(), Implies(ok, BVCmp("bvsge", val, ConstBV(0, 64))))
 		// the uninterpreted parser agrees with the real one on every concrete member of the atom's domain
 		for _, c := range sv.Cands {
 			cid := ConstInt(int64(e.intern(c)))
@@ -169,7 +171,8 @@ func registerStubs(e *Engine) {
 		p, cur := bufOf(e, st, a[0])
 		sv := a[1].(StringVal)
 		if sv.Atom != nil {
-			unsupported("strings.Builder.WriteString of an atom")
+			// text of unknown content: the builder's result becomes an opaque string (see String)
+			cur = append(cur, OpaqueVal{Tag: "atomchunk", Data: sv})
 		}
 		for _, b := range sv.Bytes {
 			cur = append(cur, b)
@@ -199,12 +202,21 @@ func registerStubs(e *Engine) {
 		_, cur := bufOf(e, st, a[0])
 		bs := make([]*Term, len(cur))
 		for i, v := range cur {
+			if _, isChunk := v.(OpaqueVal); isChunk {
+				e.opaqueSeq++
+				return StringVal{Atom: ConstInt(int64(500000 + e.opaqueSeq)), Others: 1}
+			}
 			bs[i] = asTerm(v)
 		}
 		return StringVal{Bytes: bs}
 	}
 	e.intr["(*strings.Builder).Len"] = func(e *Engine, st *State, cc *ssa.CallCommon, a []Value) Value {
 		_, cur := bufOf(e, st, a[0])
+		for _, v := range cur {
+			if _, isChunk := v.(OpaqueVal); isChunk {
+				unsupported("strings.Builder.Len after writing an atom")
+			}
+		}
 		return ConstBV(uint64(len(cur)), 64)
 	}
 	e.intr["(*strings.Builder).Reset"] = func(e *Engine, st *State, cc *ssa.CallCommon, a []Value) Value {
